@@ -48,7 +48,14 @@ def gen_case(seed):
             k = g.rint((1, size - 1))
             pn = g.pick(["p", kname])
             mk = lambda: ("ten", sub[1], sub[2], sub[3], g.real_data(g.numel([s_ for n, s_ in sub[1]])), False)  # noqa: E731
-            if size >= 3 and g.chance(0.6):
+            if g.chance(0.35) and not sub[2]:
+                # bare tensors as parts (each with its own length along the part name): every part is a leaf of its own
+                def bare(length):
+                    ins_ = tuple((pn if n_ == kname else n_, length if n_ == kname else s_) for n_, s_ in sub[1])
+                    return ("ten", ins_, sub[2], sub[3], g.real_data(g.numel([s_ for n_, s_ in ins_])), False)
+
+                w = ("cat", kname, (bare(k), bare(size - k)), pn)
+            elif size >= 3 and g.chance(0.6):
                 cuts = [0, 1, 2, size]
                 srcs = [sub, mk(), mk()]
                 g.src.r.shuffle(srcs) if hasattr(g.src, "r") else None
@@ -391,8 +398,11 @@ class C11(Prop):
                 # the leaf itself is not a node of the taped expression (e.g. the optimizer / lazy
                 # evaluation already renamed or sliced it into a new Tensor): no adjoint to compare
                 stt.count("leaf-without-adjoint-entry")
-                if wrapped_paths and any(path[: len(w)] == w for w in wrapped_paths):
+                sub_paths = [pth for pth, n in positions(node) if n[0] == "sub"]
+                if sub_paths and any(path[: len(w)] == w for w in sub_paths):
                     continue
+                # (a bare part of a Cat keeps its identity: the Cat stays a lazy term until the tape runs, so its parts must
+                # receive their share of the adjoint; no entry means a zero adjoint)
                 adj = None
             else:
                 adj = bwd[key]
